@@ -71,6 +71,26 @@ func (m *Monitor) Check(w *World, pre raft.VNode, op Op, post raft.VNode) *Bad {
 	if pre.Role != "candidate" && post.Role == "candidate" && op.Kind != "timeoutNow" && post.CandTransfer {
 		return &Bad{"C16/C17", fmt.Sprintf("node starts an election by itself (%s) with the leader's transfer permission set: no leader designated it", op.Kind)}
 	}
+	// C17 (and C11): a leader whose election timer fires while it cannot reach a quorum of the VOTERS of its latest
+	// configuration (itself counted only if it is a voter) steps down, so that the connected majority can elect
+	if op.Kind == "timeout" && pre.Role == "leader" && post.Role == "leader" && post.Term == pre.Term {
+		vs := voters(pre.Configs.Latest)
+		reach := 0
+		for _, v := range vs {
+			if v == w.Self {
+				reach++
+				continue
+			}
+			for _, r := range pre.Ldr.Repls {
+				if r.ID == v && !r.NoContact {
+					reach++
+				}
+			}
+		}
+		if len(vs) > 0 && reach < len(vs)/2+1 {
+			return &Bad{"C17/C11", fmt.Sprintf("leader keeps leading after its timer fired although it reaches only %d of %d voters of its latest configuration", reach, len(vs))}
+		}
+	}
 	// C06/C10: a follower that stored new entries flushes them before it acknowledges (what it acknowledged
 	// survives a crash)
 	if op.Kind == "append" && post.RpcReply != nil && post.RpcReply.Result == 1 && post.LastLogIndex > pre.LastLogIndex {
